@@ -747,16 +747,30 @@ func (e *liveEnv) liveCancel(r *h.Run, rng *h.Rng, fam, kind, proto string, h2 b
 	}
 	r.Eval(fam, fmt.Sprintf("%s/%s/%v/%s/%v", kind, proto, h2, instant, deadline))
 	var cancel context.CancelFunc
+	// half of the contexts are ended WITH A CAUSE (context.WithCancelCause / WithTimeoutCause):
+	// Err() is still Canceled / DeadlineExceeded, but transports may report the cause instead
+	withCause := rng.Bool()
 	mk := func(d time.Duration) {
 		if deadline {
 			if ctx == nil {
-				ctx, cancel = context.WithTimeout(context.Background(), d)
+				if withCause {
+					ctx, cancel = context.WithTimeoutCause(context.Background(), d, errors.New("budget spent"))
+				} else {
+					ctx, cancel = context.WithTimeout(context.Background(), d)
+				}
 				end = func() { <-ctx.Done() }
 			}
+		} else if withCause {
+			c2, cancelCause := context.WithCancelCause(context.Background())
+			ctx, cancel = c2, func() { cancelCause(errors.New("caller gave up")) }
+			end = cancel
 		} else {
 			ctx, cancel = context.WithCancel(context.Background())
 			end = cancel
 		}
+	}
+	if withCause {
+		c.log = append(c.log, "[the context is ended with a cause]")
 	}
 	// time from creating the context to the instant: operations before the
 	// instant take well under 150ms
